@@ -1372,15 +1372,30 @@ static Node *init_desg_expr(InitDesg *desg, Token *tok) {
   return new_unary(ND_DEREF, new_add(lhs, rhs, tok), tok);
 }
 
+static Node *create_lvar_init(Initializer *init, Type *ty, InitDesg *desg, Token *tok);
+
+// Assignments for the elements [lo, hi) of an array, in index order.
+// The comma expressions form a balanced tree, so that its depth (and
+// with it the recursion depth of add_type and gen_expr) stays
+// logarithmic in the array length.
+static Node *create_lvar_init_elems(Initializer *init, Type *ty, InitDesg *desg,
+                                    Token *tok, int lo, int hi) {
+  if (hi - lo == 1) {
+    InitDesg desg2 = {desg, lo};
+    return create_lvar_init(init->children[lo], ty->base, &desg2, tok);
+  }
+  int mid = lo + (hi - lo) / 2;
+  return new_binary(ND_COMMA,
+                    create_lvar_init_elems(init, ty, desg, tok, lo, mid),
+                    create_lvar_init_elems(init, ty, desg, tok, mid, hi), tok);
+}
+
 static Node *create_lvar_init(Initializer *init, Type *ty, InitDesg *desg, Token *tok) {
   if (ty->kind == TY_ARRAY) {
-    Node *node = new_node(ND_NULL_EXPR, tok);
-    for (int i = 0; i < ty->array_len; i++) {
-      InitDesg desg2 = {desg, i};
-      Node *rhs = create_lvar_init(init->children[i], ty->base, &desg2, tok);
-      node = new_binary(ND_COMMA, node, rhs, tok);
-    }
-    return node;
+    if (ty->array_len <= 0)
+      return new_node(ND_NULL_EXPR, tok);
+    return new_binary(ND_COMMA, new_node(ND_NULL_EXPR, tok),
+                      create_lvar_init_elems(init, ty, desg, tok, 0, ty->array_len), tok);
   }
 
   if (ty->kind == TY_STRUCT && !init->expr) {
